@@ -26,13 +26,16 @@ ExcOr = KExcOr
 class KCallable(Kind):
     '''A function-valued parameter/field whose behaviour is given by the named contract.'''
 
-    def __init__(self, key):
+    def __init__(self, key, bind=None):
         self.key = key
+        self.bind = bind       # name of the parameter the callable is a bound method of (e.g. 'self')
         self.name = 'Callable_' + key
 
     def fresh(self, ip, hint='f'):
         from .values import VFunc
-        return VFunc('contractref', hint, target=self.key)
+        f = VFunc('contractref', hint, target=self.key)
+        f.bind_name = self.bind
+        return f
 
 
 Callable = KCallable
